@@ -142,6 +142,9 @@ func c20Families() []costFamily {
 			sb.WriteString(" FROM t")
 			return sb.String()
 		}, 500},
+		{"open-comment-blank-lines", func(n int) string { return "SELECT 1 /*" + rep("\n", 4*n) }, 500},
+		{"open-string-blank-lines", func(n int) string { return "SELECT 'a" + rep("\n  \n", 2*n) }, 500},
+		{"many-blank-lines-at-end", func(n int) string { return "SELECT 1" + rep("\n", 4*n) }, 500},
 		{"cast-type-params", func(n int) string { return "SELECT CAST(x AS DECIMAL(1" + rep(",1", n) + ")) FROM t" }, 500},
 		{"match-mode-words", func(n int) string { return "SELECT MATCH(a) AGAINST ('x'" + rep(" w", n) + ") FROM t" }, 500},
 		{"sign-chain-not", func(n int) string { return "SELECT a FROM t WHERE a = 1" + rep(" AND NOT a = 1", n) }, 500},
@@ -182,6 +185,16 @@ func c20EPs() []costEP {
 		{"Scanner.ScanSQL", none, func(s string, _ interface{}) { _ = security.NewScanner().ScanSQL(s) }},
 		{"textsecurity.Scan", none, func(s string, _ interface{}) { _ = textsec.NewScanner().Scan(s) }},
 		{"linter.LintString", none, func(s string, _ interface{}) { _ = linter.New(AllRules()...).LintString(s, "f.sql") }},
+		{"linter.Fix-chain", none, func(s string, _ interface{}) {
+			// the text rewriters, in the order the CLI applies them
+			for _, r := range AllRules() {
+				if r.CanAutoFix() {
+					if out, err := r.Fix(s, nil); err == nil {
+						s = out
+					}
+				}
+			}
+		}},
 	}
 }
 
